@@ -12,11 +12,12 @@ import (
 
 // selUse is one selector of an expression with its context.
 type selUse struct {
-	vs     *parser.VectorSelector
-	metric string
-	rng    int64  // ms, 0 = instant vector selector
-	off    int64  // ms
-	fn     string // function applied directly to the range vector ("" otherwise)
+	underAgg bool // some ancestor is an aggregation
+	vs       *parser.VectorSelector
+	metric   string
+	rng      int64  // ms, 0 = instant vector selector
+	off      int64  // ms
+	fn       string // function applied directly to the range vector ("" otherwise)
 }
 
 func selectorsOf(expr parser.Expr) []selUse {
@@ -30,6 +31,11 @@ func selectorsOf(expr parser.Expr) []selUse {
 		for _, m := range vs.LabelMatchers {
 			if m.Name == "__name__" && m.Type == labels.MatchEqual {
 				u.metric = m.Value
+			}
+		}
+		for _, p := range path {
+			if _, ok := p.(*parser.AggregateExpr); ok {
+				u.underAgg = true
 			}
 		}
 		if n := len(path); n > 0 {
@@ -145,6 +151,79 @@ func knownClass(d *DataJ, q QueryJ) string {
 					}
 				}
 			}
+		}
+	}
+	// K7: an aggregation whose by/without list names __name__
+	k7 := false
+	parser.Inspect(expr, func(node parser.Node, _ []parser.Node) error {
+		if a, ok := node.(*parser.AggregateExpr); ok {
+			for _, g := range a.Grouping {
+				if g == "__name__" {
+					k7 = true
+				}
+			}
+		}
+		return nil
+	})
+	if k7 {
+		return "aggregation_grouping_names_metric_name"
+	}
+	// K8: range query, aggregation over a selector whose offset is larger than the step
+	if q.Step > 0 {
+		for _, u := range sels {
+			if u.underAgg && (u.off > q.Step || -u.off > q.Step) {
+				return "aggregation_over_offset_larger_than_step"
+			}
+		}
+	}
+	// K9: range query, vector-vector operator: a series on the right-hand side has its last point earlier than a
+	// series on the left-hand side (the merge then runs on into the rows of the next right-hand series)
+	if q.Step > 0 {
+		k9 := false
+		var st *memStore
+		parser.Inspect(expr, func(node parser.Node, _ []parser.Node) error {
+			b, ok := node.(*parser.BinaryExpr)
+			if !ok || k9 || b.LHS.Type() != parser.ValueTypeVector || b.RHS.Type() != parser.ValueTypeVector {
+				return nil
+			}
+			if st == nil {
+				st = newMemStore(d)
+			}
+			l := refQuery(st, b.LHS.String(), d.Base+q.Start, d.Base+q.End, q.Step)
+			r := refQuery(st, b.RHS.String(), d.Base+q.Start, d.Base+q.End, q.Step)
+			if l.Err != "" || r.Err != "" {
+				return nil
+			}
+			lastOf := func(res *Result, latest bool) (int64, bool) {
+				var out int64
+				found := false
+				for _, se := range res.Series {
+					if len(se.Points) == 0 {
+						continue
+					}
+					t := se.Points[len(se.Points)-1].T
+					if !found || (latest && t > out) || (!latest && t < out) {
+						out, found = t, true
+					}
+				}
+				return out, found
+			}
+			lmax, ok1 := lastOf(l, true)
+			rmin, ok2 := lastOf(r, false)
+			if ok1 && ok2 && lmax > rmin && len(r.Series) > 1 {
+				k9 = true
+			}
+			if b.VectorMatching != nil && b.VectorMatching.Card != parser.CardOneToOne {
+				rmax, _ := lastOf(r, true)
+				lmin, _ := lastOf(l, false)
+				if ok1 && ok2 && rmax > lmin && len(l.Series) > 1 {
+					k9 = true
+				}
+			}
+			return nil
+		})
+		if k9 {
+			return "vector_vector_right_series_ends_before_left"
 		}
 	}
 	// K6: a stored record of a series holds nothing but staleness markers (e.g. the marker is in the memtable, the
